@@ -17,14 +17,14 @@ CLAIMS = {
     "C05": ("model_checking", "same configuration space; structure (shape, real/complex, dtype) of every VJP result equals the argument's, of every JVP "
             "result the output's (Contract!GradInArgSpace, no numerics), judged by TLC; Shape.tla's predicted shapes are cross-checked against NumPy", "4 C05"),
     "C06": ("model_checking", "same configuration space; primal under reverse, forward and nested differentiation identical to plain NumPy (value, shape, "
-            "dtype), no tracer handed back, inputs intact (Contract!Transparent) + AGM NoLeak invariant + every primal/auxiliary value handed back by a "
+            "dtype), no tracer handed back, inputs intact, and the un-traced value equal to what numpy itself returns for the same call (Contract!Transparent) + AGM NoLeak invariant + every primal/auxiliary value handed back by a "
             "differential operator and the value of every container program (TraceOperators/TraceContainers!Transparent)", "4 C06"),
     "C09": ("model_checking", "configurations with complex operands or results; realified Jacobian of plain NumPy; R = conj(J_R^T conj g) and F = J_R v "
-            "on the real basis {e_k, i e_k}, judged by TLC", "4 C09"),
+            "on the real basis {e_k, i e_k}, complex points in all four quadrants, judged by TLC", "4 C09"),
     "C03": ("model_checking", "RevImpl (toposort + backward_pass + add_outgrads) refines RevAbs over all DAGs <= 5 nodes (multi-edges, diamonds, dead "
             "branches, constants); every exported graph is run on the real code and its rule-application trace validated against RevAbs by TLC; the forward "
             "pass likewise (FwdImpl refines FwdAbs, JVP-rule applications validated by TraceFwd); one value with up to 1000 consumers (Fan.tla); second "
-            "order on the same graphs", "4 C03"),
+            "order on the same graphs; gathers with repeated entries (multi-edges inside one operation) over the index space", "4 C03"),
     "C07": ("model_checking", "autograd abstract machine (AGM) checked against a symbolic polynomial oracle for every mode sequence of order 2..4; "
             "every program replayed on the real code and judged by TLC; mix family (indexing + dense cotangents under 1-3 differentiations); per "
             "primitive configuration Contract!SecondOrder incl. LinearAtZero", "4 C07"),
@@ -38,7 +38,7 @@ CLAIMS = {
             "SparseObject primitives and built-in x[idx]; traces validated against RevAbs; every index expression (incl. 0-d arrays) scatters "
             "exactly and never raises (Contract!C11), also combined with dense uses in every order and memory layout (mixorder); mix programs of the machine", "4 C11"),
     "C12": ("model_checking", "Containers.tla: trees, access operations resolved to leaves, gradients as summed weights, flatten laws model-checked; every "
-            "(tree, program, output mode, whole-container use) replayed on autograd's container boxes and misc.flatten, judged by TLC; every way of "
+            "(tree, program, output mode, whole-container use, leaf memory layout) replayed on autograd's container boxes and misc.flatten, judged by TLC; every way of "
             "reading a component of the library's own named-tuple results (Contract!C12, no raising)", "4 C12"),
     "C13": ("model_checking", "VSpaceAlg.tla: the algebra of autograd's vector spaces over structure trees; axioms model-checked; every enumerated "
             "(space, vectors, scalars) replayed on the real vspace for all dtypes/containers and judged by TLC (operations = algebra, freshness, accumulation into caller-built vectors, addend intact, == and != of spaces, memory layouts)", "4 C13"),
@@ -47,7 +47,8 @@ CLAIMS = {
     "C15": ("exploration", "Dispatch.tla models the decision table of the primitive wrapper (NoSilentDrop); the whole exported namespace (autograd.numpy, "
             ".linalg, .fft, .random, ArrayBox attributes) is swept with call templates NumPy accepts, each positional float argument (and all of them at "
             "once, and with special values in the other arguments) is differentiated in both modes; TLC judges every recorded row (varies & zero => "
-            "violation, gross disagreement => violation) and 28 guard cases that must raise (incl. Python's conversion protocols)", "4 C15"),
+            "violation, gross disagreement => violation) and 28 guard cases that must raise (incl. Python's conversion protocols); loud failures caught and "
+            "retried at every nesting depth (AGM fault family) must leave exact derivatives", "4 C15"),
     "C16": ("model_checking", "Operators.tla: every differential operator defined as a contraction of one symbolic integer Jacobian/Hessian; operator "
             "identities model-checked; 29 operators (incl. operators of operators through secondary outputs) x shapes x argument layouts replayed on the real package, shape and entries compared exactly by TLC", "4 C16"),
     "C17": ("model_checking", "AGM with a user-defined product primitive and a rule table {rule, None, missing}: arities 1..4 x differentiated subsets x "
@@ -59,7 +60,7 @@ CLAIMS = {
             "per cell and judged by TLC against a binomial threshold: statistical evidence, not a decision", "4 C18"),
     "C19": ("model_checking", "AGM with faults at every instruction of the innermost function, in the backward pass and at trace exit, caught at every "
             "enclosing level, followed by canaries; replayed in one process per worker and judged by TLC; re-wrapping and other-tracer histories; the rule "
-            "tables evaluated in two processes in opposite orders must agree bit for bit (TraceHistory.tla)", "4 C19"),
+            "tables evaluated in two processes in opposite orders must agree bit for bit, also with every warning promoted to an error (TraceHistory.tla)", "4 C19"),
     "C20": ("model_checking", "AGM with 2-3 threads: all interleavings model-checked; TLC-exported schedules replayed with real threads under a strict "
             "baton scheduler, once switching at machine-step boundaries and once with threads frozen inside autograd's own code, with shared operator "
             "objects and with threads born / joined under open traces; per-thread results judged against the run-alone meaning", "4 C20"),
